@@ -35,6 +35,7 @@ From Coq Require Import PrimFloat.
 From Coq Require Import ZArith List Bool Reals Lra Permutation Sorted.
 From BZ Require Import Base.Ops Gen.Point Gen.Line Gen.Quad Gen.Cubic Gen.CurveDist Hand.MinDist Proofs.C20 Proofs.C20term Proofs.C20termF Base.FloatCmp.
 Import ListNotations.
+From BZ Require Proofs.Transfer4.
 From BZ Require Gen.Sample Gen.MinDist Proofs.Bridge4.
 Open Scope R_scope.
 
@@ -215,6 +216,63 @@ Proof. exact @Bridge4.curveDistance_CQ_gen. Qed.
 Theorem C20_curveDistance_CC_gen :
   forall (T : Type) (O : Ops T) (fuel : nat) (a b : seg4 T), Bridge4.cd_rel (MinDist.curvedistance_curveDistance_Cubic_Cubic O fuel a b) (curveDistance O fuel (SCubic a) (SCubic b)).
 Proof. exact @Bridge4.curveDistance_CC_gen. Qed.
+Theorem C20_gen_curveDistance_LL_outcomes :
+  forall (fuel : nat) (a b : seg2 R), Transfer4.value_or_fuel (MinDist.curvedistance_curveDistance_Line_Line ROps fuel a b).
+Proof. exact @Transfer4.gen_curveDistance_LL_outcomes. Qed.
+Theorem C20_gen_curveDistance_LL_realised :
+  forall (fuel : nat) (a b : seg2 R) (r : R * R * R), MinDist.curvedistance_curveDistance_Line_Line ROps fuel a b = Some (Sample.Returns r) -> Transfer4.realised (SLine a) (SLine b) r.
+Proof. exact @Transfer4.gen_curveDistance_LL_realised. Qed.
+Theorem C20_gen_curveDistance_LQ_outcomes :
+  forall (fuel : nat) (a : seg2 R) (b : seg3 R), Transfer4.value_or_fuel (MinDist.curvedistance_curveDistance_Line_Quad ROps fuel a b).
+Proof. exact @Transfer4.gen_curveDistance_LQ_outcomes. Qed.
+Theorem C20_gen_curveDistance_LQ_realised :
+  forall (fuel : nat) (a : seg2 R) (b : seg3 R) (r : R * R * R), MinDist.curvedistance_curveDistance_Line_Quad ROps fuel a b = Some (Sample.Returns r) -> Transfer4.realised (SLine a) (SQuad b) r.
+Proof. exact @Transfer4.gen_curveDistance_LQ_realised. Qed.
+Theorem C20_gen_curveDistance_LC_outcomes :
+  forall (fuel : nat) (a : seg2 R) (b : seg4 R), Transfer4.value_or_fuel (MinDist.curvedistance_curveDistance_Line_Cubic ROps fuel a b).
+Proof. exact @Transfer4.gen_curveDistance_LC_outcomes. Qed.
+Theorem C20_gen_curveDistance_LC_realised :
+  forall (fuel : nat) (a : seg2 R) (b : seg4 R) (r : R * R * R), MinDist.curvedistance_curveDistance_Line_Cubic ROps fuel a b = Some (Sample.Returns r) -> Transfer4.realised (SLine a) (SCubic b) r.
+Proof. exact @Transfer4.gen_curveDistance_LC_realised. Qed.
+Theorem C20_gen_curveDistance_QL_outcomes :
+  forall (fuel : nat) (a : seg3 R) (b : seg2 R), Transfer4.value_or_fuel (MinDist.curvedistance_curveDistance_Quad_Line ROps fuel a b).
+Proof. exact @Transfer4.gen_curveDistance_QL_outcomes. Qed.
+Theorem C20_gen_curveDistance_QL_realised :
+  forall (fuel : nat) (a : seg3 R) (b : seg2 R) (r : R * R * R), MinDist.curvedistance_curveDistance_Quad_Line ROps fuel a b = Some (Sample.Returns r) -> Transfer4.realised (SQuad a) (SLine b) r.
+Proof. exact @Transfer4.gen_curveDistance_QL_realised. Qed.
+Theorem C20_gen_curveDistance_QQ_outcomes :
+  forall (fuel : nat) (a b : seg3 R), Transfer4.value_or_fuel (MinDist.curvedistance_curveDistance_Quad_Quad ROps fuel a b).
+Proof. exact @Transfer4.gen_curveDistance_QQ_outcomes. Qed.
+Theorem C20_gen_curveDistance_QQ_realised :
+  forall (fuel : nat) (a b : seg3 R) (r : R * R * R), MinDist.curvedistance_curveDistance_Quad_Quad ROps fuel a b = Some (Sample.Returns r) -> Transfer4.realised (SQuad a) (SQuad b) r.
+Proof. exact @Transfer4.gen_curveDistance_QQ_realised. Qed.
+Theorem C20_gen_curveDistance_QC_outcomes :
+  forall (fuel : nat) (a : seg3 R) (b : seg4 R), Transfer4.value_or_fuel (MinDist.curvedistance_curveDistance_Quad_Cubic ROps fuel a b).
+Proof. exact @Transfer4.gen_curveDistance_QC_outcomes. Qed.
+Theorem C20_gen_curveDistance_QC_realised :
+  forall (fuel : nat) (a : seg3 R) (b : seg4 R) (r : R * R * R), MinDist.curvedistance_curveDistance_Quad_Cubic ROps fuel a b = Some (Sample.Returns r) -> Transfer4.realised (SQuad a) (SCubic b) r.
+Proof. exact @Transfer4.gen_curveDistance_QC_realised. Qed.
+Theorem C20_gen_curveDistance_CL_outcomes :
+  forall (fuel : nat) (a : seg4 R) (b : seg2 R), Transfer4.value_or_fuel (MinDist.curvedistance_curveDistance_Cubic_Line ROps fuel a b).
+Proof. exact @Transfer4.gen_curveDistance_CL_outcomes. Qed.
+Theorem C20_gen_curveDistance_CL_realised :
+  forall (fuel : nat) (a : seg4 R) (b : seg2 R) (r : R * R * R), MinDist.curvedistance_curveDistance_Cubic_Line ROps fuel a b = Some (Sample.Returns r) -> Transfer4.realised (SCubic a) (SLine b) r.
+Proof. exact @Transfer4.gen_curveDistance_CL_realised. Qed.
+Theorem C20_gen_curveDistance_CQ_outcomes :
+  forall (fuel : nat) (a : seg4 R) (b : seg3 R), Transfer4.value_or_fuel (MinDist.curvedistance_curveDistance_Cubic_Quad ROps fuel a b).
+Proof. exact @Transfer4.gen_curveDistance_CQ_outcomes. Qed.
+Theorem C20_gen_curveDistance_CQ_realised :
+  forall (fuel : nat) (a : seg4 R) (b : seg3 R) (r : R * R * R), MinDist.curvedistance_curveDistance_Cubic_Quad ROps fuel a b = Some (Sample.Returns r) -> Transfer4.realised (SCubic a) (SQuad b) r.
+Proof. exact @Transfer4.gen_curveDistance_CQ_realised. Qed.
+Theorem C20_gen_curveDistance_CC_outcomes :
+  forall (fuel : nat) (a b : seg4 R), Transfer4.value_or_fuel (MinDist.curvedistance_curveDistance_Cubic_Cubic ROps fuel a b).
+Proof. exact @Transfer4.gen_curveDistance_CC_outcomes. Qed.
+Theorem C20_gen_curveDistance_CC_realised :
+  forall (fuel : nat) (a b : seg4 R) (r : R * R * R), MinDist.curvedistance_curveDistance_Cubic_Cubic ROps fuel a b = Some (Sample.Returns r) -> Transfer4.realised (SCubic a) (SCubic b) r.
+Proof. exact @Transfer4.gen_curveDistance_CC_realised. Qed.
+Theorem C20_gen_curveDistance_CC_ge_true_min :
+  forall (fuel : nat) (a b : seg4 R) (d t1 t2 lo : R), (forall u v : R, 0 <= u <= 1 -> 0 <= v <= 1 -> lo <= seg_dist (SCubic a) (SCubic b) u v) -> MinDist.curvedistance_curveDistance_Cubic_Cubic ROps fuel a b = Some (Sample.Returns (d, t1, t2)) -> lo <= d.
+Proof. exact @Transfer4.gen_curveDistance_CC_ge_true_min. Qed.
 
 Print Assumptions C20_S_is_sqdist_2_2.
 Print Assumptions C20_S_is_sqdist_2_3.
@@ -275,3 +333,22 @@ Print Assumptions C20_curveDistance_QC_gen.
 Print Assumptions C20_curveDistance_CL_gen.
 Print Assumptions C20_curveDistance_CQ_gen.
 Print Assumptions C20_curveDistance_CC_gen.
+Print Assumptions C20_gen_curveDistance_LL_outcomes.
+Print Assumptions C20_gen_curveDistance_LL_realised.
+Print Assumptions C20_gen_curveDistance_LQ_outcomes.
+Print Assumptions C20_gen_curveDistance_LQ_realised.
+Print Assumptions C20_gen_curveDistance_LC_outcomes.
+Print Assumptions C20_gen_curveDistance_LC_realised.
+Print Assumptions C20_gen_curveDistance_QL_outcomes.
+Print Assumptions C20_gen_curveDistance_QL_realised.
+Print Assumptions C20_gen_curveDistance_QQ_outcomes.
+Print Assumptions C20_gen_curveDistance_QQ_realised.
+Print Assumptions C20_gen_curveDistance_QC_outcomes.
+Print Assumptions C20_gen_curveDistance_QC_realised.
+Print Assumptions C20_gen_curveDistance_CL_outcomes.
+Print Assumptions C20_gen_curveDistance_CL_realised.
+Print Assumptions C20_gen_curveDistance_CQ_outcomes.
+Print Assumptions C20_gen_curveDistance_CQ_realised.
+Print Assumptions C20_gen_curveDistance_CC_outcomes.
+Print Assumptions C20_gen_curveDistance_CC_realised.
+Print Assumptions C20_gen_curveDistance_CC_ge_true_min.
